@@ -13,6 +13,10 @@ class Entry (ρ α : Type) extends Add α, Sub α, Mul α, Zero α, Conj α wher
   divReal : α → ρ → α
   /-- squared modulus -/
   normSq : α → ρ
+  /-- real and imaginary parts, and the entry with given parts -/
+  re : α → ρ
+  im : α → ρ
+  ofParts : ρ → ρ → α
 
 structure Mat (n m : Nat) (α : Type) where
   data : Vector (Vector α m) n
@@ -55,7 +59,8 @@ end XM
 
 instance : XM.Conj Float := ⟨id⟩
 instance : Zero Float := ⟨0.0⟩
-instance : XM.Entry Float Float := { ofReal := id, divReal := fun x r => x / r, normSq := fun x => x * x }
+instance : XM.Entry Float Float :=
+  { ofReal := id, divReal := fun x r => x / r, normSq := fun x => x * x, re := id, im := fun _ => 0.0, ofParts := fun a _ => a }
 
 /-- complex doubles: the executable model's second entry type (numpy's complex128 arithmetic) -/
 structure XM.CF where
@@ -70,5 +75,6 @@ instance : Mul CF := ⟨fun a b => ⟨a.re * b.re - a.im * b.im, a.re * b.im + a
 instance : Zero CF := ⟨⟨0.0, 0.0⟩⟩
 instance : XM.Conj CF := ⟨fun a => ⟨a.re, -a.im⟩⟩
 instance : XM.Entry Float CF :=
-  { ofReal := fun x => ⟨x, 0.0⟩, divReal := fun a r => ⟨a.re / r, a.im / r⟩, normSq := fun a => a.re * a.re + a.im * a.im }
+  { ofReal := fun x => ⟨x, 0.0⟩, divReal := fun a r => ⟨a.re / r, a.im / r⟩, normSq := fun a => a.re * a.re + a.im * a.im,
+    re := fun a => a.re, im := fun a => a.im, ofParts := fun a b => ⟨a, b⟩ }
 end XM.CF
